@@ -19,10 +19,10 @@ fn to_pzone(z: &MZone) -> PZone {
 
 pub fn arb_case() -> SBoxedStrategy<PCase> {
     (
-        prop_oneof![3 => gens::arb_zone(ZoneCfg { max_trans: 10, leaps: true, wide_times: false }), 1 => gens::arb_zone(ZoneCfg { max_trans: 6, leaps: true, wide_times: true }), 2 => gens::arb_aligned_zone()],
+        prop_oneof![3 => gens::arb_zone(ZoneCfg { max_trans: 10, leaps: true, wide_times: false }), 1 => gens::arb_zone(ZoneCfg { max_trans: 6, leaps: true, wide_times: true }), 2 => gens::arb_aligned_zone(), 1 => gens::arb_many_types_zone(), 1 => gens::arb_leap_adjacent_zone()],
         proptest::collection::vec((gens::arb_unix_time(), gens::arb_ns()), 1..5),
         proptest::collection::vec(prop_oneof![3 => gens::arb_valid_fields(), 1 => gens::arb_fields_perturbed()], 1..5),
-        proptest::collection::vec(any::<i128>().prop_map(|v| v / 1_000_000), 0..3),
+        proptest::collection::vec(prop_oneof![2 => any::<i128>().prop_map(|v| v / 1_000_000), 2 => (-9_300_000_000i128..9_300_000_000, prop_oneof![Just(0i128), Just(1i128), Just(999_999_999i128), 0i128..1_000_000_000]).prop_map(|(k, r)| k * 1_000_000_000 + r)], 0..4),
         0usize..4,
     )
         .prop_map(|(z, mut instants, civils, nanos, buf_len)| {
@@ -33,6 +33,14 @@ pub fn arb_case() -> SBoxedStrategy<PCase> {
             }
             // civil times shown at those instants
             let mut cv: Vec<(i32, u8, u8, u8, u8, u8, u32)> = civils.iter().map(|f| (f.y, f.mo, f.d, f.h, f.mi, f.s, f.ns)).collect();
+            for (t, ti) in z.trans.iter().rev().take(4) {
+                let off = z.types.get(*ti).map(|x| x.off).unwrap_or(0);
+                let l = (*t as i128 + off as i128 + 1800).clamp(crate::cal::min_unix() as i128, crate::cal::max_unix() as i128);
+                let c = crate::cal::civil_from_unix(l);
+                if let Some(f) = gens::Fields::from_civil(&c, 1) {
+                    cv.push((f.y, f.mo, f.d, f.h, f.mi, f.s, f.ns));
+                }
+            }
             for (t, _) in z.trans.iter().take(3) {
                 let off = z.types.first().map(|x| x.off).unwrap_or(0);
                 let l = (*t as i128 + off as i128).clamp(crate::cal::min_unix() as i128, crate::cal::max_unix() as i128);
@@ -47,7 +55,8 @@ pub fn arb_case() -> SBoxedStrategy<PCase> {
 }
 
 fn build_probe(cfg: &str, extra: &[&str]) -> Result<std::path::PathBuf, String> {
-    let verif = Path::new(VERIF_DIR);
+    let verif_buf = crate::run::verif_dir();
+    let verif = verif_buf.as_path();
     let tdir = verif.join(format!("target/cfgprobe-{cfg}"));
     let log = verif.join(format!("build/c19-build-{cfg}.log"));
     let out = Command::new("cargo")
@@ -75,7 +84,8 @@ fn run_probe(bin: &Path, corpus: &Path) -> Result<Vec<String>, String> {
 }
 
 fn compare(cases: &[PCase], st: &mut Stats) -> Result<(), Failure> {
-    let verif = Path::new(VERIF_DIR);
+    let verif_buf = crate::run::verif_dir();
+    let verif = verif_buf.as_path();
     let corpus = verif.join(format!("build/c19-corpus-{}.json", std::process::id()));
     std::fs::write(&corpus, serde_json::to_string(cases).unwrap()).map_err(|e| Failure::new("infra", e.to_string(), json!(null)))?;
     let own: Vec<String> = cases.iter().map(transcript::transcript).collect();
@@ -153,14 +163,17 @@ pub fn run(ctx: &Ctx) -> Outcome {
     let n = ctx.tier.pick(30_000usize, 400_000usize);
     let mut dr = Drawer::new(ctx, "corpus", 0);
     let strat = arb_case();
-    let cases: Vec<PCase> = (0..n).map(|_| dr.draw(&strat)).collect();
     let mut st = Stats::new();
-    match compare(&cases, &mut st) {
-        Ok(()) => {}
-        Err(f) => {
-            // minimise: find the first failing case alone
+    let batch = 10_000usize;
+    let mut done = 0usize;
+    while done < n {
+        let k = batch.min(n - done);
+        let cases: Vec<PCase> = (0..k).map(|_| dr.draw(&strat)).collect();
+        if let Err(f) = compare(&cases, &mut st) {
             out.failure = Some(f);
+            break;
         }
+        done += k;
     }
     out.stats.merge(st);
     out
